@@ -496,19 +496,7 @@ func (t *Table) updateVPNIdx(u *Update, newPath, oldPath *Path) {
 	if t.vpnIdx == nil {
 		return
 	}
-	if newPath.RemoteID() != 0 {
-		// ADD-PATH: each (source, path-ID) pair is a distinct entry.
-		// oldPath is the previous path with the same source×pathID returned by
-		// implicitWithdraw (non-withdrawal) or explicitWithdraw (withdrawal).
-		if newPath.IsWithdraw {
-			t.vpnIdx.UnregisterPath(oldPath)
-		} else {
-			t.vpnIdx.UnregisterPath(oldPath)
-			t.vpnIdx.RegisterPath(newPath)
-		}
-		return
-	}
-	// No-add-path: track only the best path per NLRI.
+	// Paths learnt without ADD-PATH: only the best path per NLRI is tracked.
 	// KnownPathList is sorted by computeKnownBestPath, so [0] is the best.
 	var oldBest, newBest *Path
 	if len(u.OldKnownPathList) > 0 {
@@ -517,10 +505,25 @@ func (t *Table) updateVPNIdx(u *Update, newPath, oldPath *Path) {
 	if len(u.KnownPathList) > 0 {
 		newBest = u.KnownPathList[0]
 	}
-	if oldBest != newBest {
+	bestChanged := oldBest != newBest
+	// ADD-PATH: each (source, path-ID) pair is a distinct entry.
+	// oldPath is the previous path with the same source×pathID returned by
+	// implicitWithdraw (non-withdrawal) or explicitWithdraw (withdrawal).
+	addPath := newPath.RemoteID() != 0
+
+	// everything that leaves goes first: what comes in can have the same key.
+	// The path this change replaces or withdraws leaves in any case.
+	t.vpnIdx.UnregisterPath(oldPath)
+	if bestChanged && oldBest != nil && oldBest.RemoteID() == 0 {
 		t.vpnIdx.UnregisterPath(oldBest)
-		t.vpnIdx.RegisterPath(newBest)
 	}
+	if addPath && !newPath.IsWithdraw {
+		t.vpnIdx.RegisterPath(newPath)
+	}
+	// The best path is in the index whichever way the path that changed was
+	// learnt: an ADD-PATH path that was in front of it may have gone, or the
+	// entry of the path just taken out may have been the best path's own.
+	t.vpnIdx.RegisterPath(newBest)
 }
 
 // GetDestinations returns snapshots of all destinations in the table.
